@@ -3,6 +3,7 @@ package main
 import (
 	"bytes"
 	"fmt"
+	"io"
 	"math"
 	"unicode/utf8"
 
@@ -418,6 +419,56 @@ func c10(args []string) {
 		}
 		if err != nil && len(b) != 0 {
 			emitJSON("FAIL", "", map[string]any{"kind": "rejected-but-wrote", "bytes": len(b), "err": err.Error()})
+		}
+	}
+	// the version gate follows each file's own header along a chain written by ONE encoder (fresh, or reused after Reset): the
+	// effective version of a file is the option's if set, else its header's, else 1.0 -- never the one a previous file of the
+	// chain, or a previous life of the encoder, left in the validator; a rejected file writes nothing and the encoder goes on
+	for i := 0; i < n/6; i++ {
+		opt := proto.Version(0)
+		if r.chance(1, 4) {
+			opt = proto.Version(r.pick(0x10, 0x20))
+		}
+		reuse := r.chance(1, 3)
+		var buf bytes.Buffer
+		enc := encoder.New(&buf, encoder.WithProtocolVersion(opt))
+		if reuse {
+			enc = encoder.New(io.Discard, encoder.WithProtocolVersion(proto.Version(r.pick(0x10, 0x20))))
+			_ = enc.Encode(&proto.FIT{FileHeader: proto.FileHeader{ProtocolVersion: proto.Version(r.pick(0, 0x10, 0x20))}, Messages: []proto.Message{fileIdMesg(r)}})
+			enc.Reset(&buf, encoder.WithProtocolVersion(opt))
+		}
+		var hist []string
+		for k, nf := 0, 2+r.intn(3); k < nf; k++ {
+			hv := proto.Version(r.pick(0, 0, 0x10, 0x20, 0x21))
+			msgs := r.genFit(mesgGenCfg{wellFormed: true, maxFields: 5, unknown: true}, 1+r.intn(3), r.chance(1, 2))
+			needsV2 := false
+			for _, m := range msgs {
+				needsV2 = needsV2 || len(m.DeveloperFields) > 0
+				for _, f := range m.Fields {
+					needsV2 = needsV2 || f.BaseType&basetype.BaseTypeNumMask > basetype.Byte&basetype.BaseTypeNumMask
+				}
+			}
+			eff := hv
+			if opt != 0 {
+				eff = opt
+			} else if hv == 0 {
+				eff = proto.V1
+			}
+			want := eff == proto.V1 && needsV2
+			before := buf.Len()
+			fit := &proto.FIT{FileHeader: proto.FileHeader{ProtocolVersion: hv}, Messages: cloneMessages(msgs)}
+			err := enc.Encode(fit)
+			hist = append(hist, fmt.Sprintf("Encode(header version %d, needs 2.0: %v) -> %v", hv, needsV2, err))
+			stat("version_gate_chain_files", 1)
+			if want {
+				stat("version_gate_chain_rejections_expected", 1)
+			}
+			if (encErrClass(err) == 27) != want || (err != nil && buf.Len() != before) || (err == nil && byte(fit.FileHeader.ProtocolVersion) != byte(eff)) {
+				emitJSON("FAIL", "", map[string]any{"kind": "protocol-version-gate-along-a-chain", "option_version": opt, "encoder_reused_after_reset": reuse, "history": hist, "file": k,
+					"effective_version": eff, "want_reject": want, "err": fmt.Sprint(err), "bytes_written_by_the_call": buf.Len() - before,
+					"header_version_written_back": fit.FileHeader.ProtocolVersion, "input": coqIMesgs(msgs)})
+				break
+			}
 		}
 	}
 	_ = typedef.MesgNumInvalid
